@@ -52,10 +52,12 @@ type Reply struct {
 type Script func(plugin, rpc, token string) *Reply
 
 type H1 struct {
-	E *Env
-	S *sim.Sched
-	R *nri.Adaptation
-	L *sim.Listener
+	// ClientStatus: messages of the error statuses the runtime's ttRPC clients received in replies
+	ClientStatus []string
+	E            *Env
+	S            *sim.Sched
+	R            *nri.Adaptation
+	L            *sim.Listener
 
 	mu      stdsync.Mutex
 	Entries []*Entry
@@ -118,7 +120,19 @@ func NewH1(e *Env, treq, treg time.Duration) *H1 {
 	nri.SetPluginRequestTimeout(treq)
 	nri.SetPluginRegistrationTimeout(treg)
 	h.L = e.S.Listen()
-	r, err := nri.New("simrt", "1.0", h.syncFn, h.updFn, nri.WithDisabledExternalConnections(), nri.WithPluginPath("/nonexistent-verif"), nri.WithPluginConfigPath("/nonexistent-verif"))
+	// the runtime's ttRPC clients report every error status a plugin's reply carried (what NRI actually
+	// received, as opposed to what was sent): the documented interceptor hook, behaviour unchanged
+	seen := func(ctx context.Context, req *ttrpc.Request, resp *ttrpc.Response, info *ttrpc.UnaryClientInfo, inv ttrpc.Invoker) error {
+		err := inv(ctx, req, resp)
+		if err == nil && resp.Status != nil && resp.Status.Code != 0 {
+			h.mu.Lock()
+			h.ClientStatus = append(h.ClientStatus, resp.Status.Message)
+			h.mu.Unlock()
+		}
+		return err
+	}
+	r, err := nri.New("simrt", "1.0", h.syncFn, h.updFn, nri.WithDisabledExternalConnections(), nri.WithPluginPath("/nonexistent-verif"), nri.WithPluginConfigPath("/nonexistent-verif"),
+		nri.WithTTRPCOptions([]ttrpc.ClientOpts{ttrpc.WithUnaryClientInterceptor(seen)}, nil))
 	if err != nil {
 		panic(err)
 	}
@@ -145,6 +159,37 @@ func NewH1(e *Env, treq, treg time.Duration) *H1 {
 		}
 	})
 	return h
+}
+
+// findEntry returns the handler entry of plugin for the request with the given token, if any yet.
+func (h *H1) findEntry(plugin, token string) *Entry {
+	h.mu.Lock()
+	defer h.mu.Unlock()
+	for i := len(h.Entries) - 1; i >= 0; i-- {
+		if en := h.Entries[i]; en.Plugin == plugin && en.Token == token {
+			return en
+		}
+	}
+	return nil
+}
+
+func (h *H1) entryExited(en *Entry) bool {
+	h.mu.Lock()
+	defer h.mu.Unlock()
+	return en.Exit > 0
+}
+
+// SawClientStatus reports whether a reply carrying an error status with msg in its message reached the
+// runtime's ttRPC client.
+func (h *H1) SawClientStatus(msg string) bool {
+	h.mu.Lock()
+	defer h.mu.Unlock()
+	for _, m := range h.ClientStatus {
+		if strings.Contains(m, msg) {
+			return true
+		}
+	}
+	return false
 }
 
 func (h *H1) syncFn(ctx context.Context, cb nri.SyncCB) error {
